@@ -482,7 +482,11 @@ def check_generic(prop, tier, cfgs, n_quick, n_thorough, sigfun, stages, level="
         prefixes = ("restr_cell:", "cell:", "opcell:", "scencell:")
         cells = {k: v for k, v in stats.items() if k.startswith(prefixes)}
         stats = {k: v for k, v in stats.items() if not k.startswith(prefixes)}
+        scen = {k.split(":", 1)[1]: v for k, v in stats.items() if k.startswith("scenario:")}
+        stats = {k: v for k, v in stats.items() if not k.startswith("scenario:")}
         cov.update(stats)
+        if scen:
+            cov["calls_per_scenario"] = scen
         if cell_prefix:
             mine = {k.split(":", 1)[1]: v for k, v in cells.items() if k.startswith(cell_prefix)}
             cov["cells_observed"] = len(mine)
@@ -537,8 +541,9 @@ WSDL_RULES = {
            "with/without parts=, part names equal to or different from element names, elements in inline or imported namespaces); the "
            "client is discovered from the emitted text (syn), request envelopes are built from abstract samples, serialized and compared as "
            "infosets with the independently constructed SOAP 1.1 envelope, every operation is called against a loopback listener at the "
-           "WSDL's own address and the returned value's Debug is compared with the expected response value. Non-trivial = programs with "
-           ">= 1 operation run; distinct = structural fingerprint",
+           "WSDL's own address (paths with query strings, matrix parameters, trailing slash, no path) and the returned value's Debug "
+           "is compared with the expected response value. evaluations = client calls observed at the listener; distinct = (name style, "
+           "keyword, one-/two-way, header counts, parts=) cells of the operations run",
     "C16": "per generated client and operation the complete scenario table is run against the scripted loopback listener: statuses 200/201/204/"
            "400/401/403/404/500/503 x bodies {exact envelope in 5 prefix styles, empty, non-XML, non-envelope XML, SOAP fault, wrong body "
            "element, 5 truncations} x transport faults {closed before headers, closed after the request, body shorter than Content-Length} x "
